@@ -60,6 +60,8 @@ def statement(c):
         return ev + ".Caller(%d)" % k + fin_expr(f)
     if m == "evskipframe":
         return ev + ".CallerSkipFrame(%d)" % k + fin_expr(f)
+    if m == "evskipchain":
+        return ev + ".CallerSkipFrame(1)" * k + fin_expr(f)
     return ev + fin_expr(f)
 
 
@@ -69,7 +71,7 @@ def generate(combos):
     names = []
     for i, c in enumerate(combos):
         m, k = c["mech"], c["k"]
-        logger = {"ev": "r.plain()", "evk": "r.plain()", "ctx": "r.ctx()", "ctxcount": "r.ctxCount(%d)" % (2 + k), "evskipframe": "r.ctx()", "global": "r.ctx()"}[m]
+        logger = {"ev": "r.plain()", "evk": "r.plain()", "ctx": "r.ctx()", "ctxcount": "r.ctxCount(%d)" % (2 + k), "evskipframe": "r.ctx()", "evskipchain": "r.ctx()", "global": "r.ctx()"}[m]
         pre = "zerolog.CallerSkipFrameCount = %d; " % (2 + k) if m == "global" else ""
         stmt = statement(c)
         combo = json.dumps(c).replace('"', '\\"')
